@@ -94,6 +94,7 @@ func engineFaults(r *RunCtx) {
 		dc0 := faiss.Snapshot().DoubleClosed
 		for _, e := range pickCalls(c, len(seq), budget) {
 			p := r.path("engfault")
+			prefill(r, p, int(ref.size), nil)
 			fired := false
 			ne := 0
 			faiss.Hook = func(op string, n int) error {
